@@ -1101,10 +1101,16 @@ func overlapBudget(c *Ctx) {
 		if a.Name == "introspection-fanout" {
 			continue // MaxIntrospectionDepth's family; this rule never looks below __schema
 		}
+		if a.Name == "fragment-fanout" {
+			// the document itself has 2k fragments of constant size: sizes 16, 32, 64
+			fi := fi
+			fams = append(fams, fam{a.Name, 16, func(k int) gen.AdvCase { return gen.Adversarial(k)[fi] }})
+			continue
+		}
 		fi := fi
-		fams = append(fams, fam{a.Name, 16, func(k int) gen.AdvCase { return gen.Adversarial(k)[fi] }})
+		fams = append(fams, fam{a.Name, 64, func(k int) gen.AdvCase { return gen.Adversarial(k)[fi] }})
 	}
-	fams = append(fams, fam{"fragment-cycle-every-level", 12, overlapDeepCycle})
+	fams = append(fams, fam{"fragment-cycle-every-level", 32, overlapDeepCycle})
 	measure := func(a gen.AdvCase) (time.Duration, string) {
 		req := "validate " + OverlapRule + " " + impl.HexW([]byte(a.SchemaSDL)) + " " + impl.HexW([]byte(a.Doc))
 		best := time.Duration(0)
